@@ -68,7 +68,29 @@ func ruleCLIReg(p *Prog, r *Report) {
 		m   ssa.Value
 	}
 	var entries []entry
+	// the registry literal may sit in run itself or in a helper of cmd that run calls and that returns
+	// a map it has just built
+	regFns := []*ssa.Function{run}
 	for _, blk := range run.Blocks {
+		for _, ins := range blk.Instrs {
+			if c, ok := ins.(*ssa.Call); ok {
+				if g := c.Call.StaticCallee(); g != nil && fnPkg(g) == p.Cmd.Types && freshMapResult(g) {
+					dup := false
+					for _, h := range regFns {
+						dup = dup || h == g
+					}
+					if !dup {
+						regFns = append(regFns, g)
+					}
+				}
+			}
+		}
+	}
+	var regBlocks []*ssa.BasicBlock
+	for _, g := range regFns {
+		regBlocks = append(regBlocks, g.Blocks...)
+	}
+	for _, blk := range regBlocks {
 		for _, ins := range blk.Instrs {
 			mu, ok := ins.(*ssa.MapUpdate)
 			if !ok {
@@ -247,12 +269,22 @@ func ruleCLIReg(p *Prog, r *Report) {
 			}
 			ndisp++
 			key := fmt.Sprintf("cmd.run: dispatch#%d", ndisp)
-			ex, ok := c.Call.Value.(*ssa.Extract)
-			var lk *ssa.Lookup
-			if ok {
-				lk, _ = ex.Tuple.(*ssa.Lookup)
+			// the entry looked up with args[0]; with several tables consulted in turn, a phi of such lookups
+			var cands []ssa.Value
+			if ph, isPhi := c.Call.Value.(*ssa.Phi); isPhi {
+				cands = append(cands, ph.Edges...)
+			} else {
+				cands = append(cands, c.Call.Value)
 			}
-			okKey := lk != nil && isElemLoad(lk.Index, run.Params[1], 0)
+			okKey := len(cands) > 0
+			for _, cv := range cands {
+				ex, ok := cv.(*ssa.Extract)
+				var lk *ssa.Lookup
+				if ok {
+					lk, _ = ex.Tuple.(*ssa.Lookup)
+				}
+				okKey = okKey && lk != nil && isElemLoad(lk.Index, run.Params[1], 0)
+			}
 			okArg := len(c.Call.Args) == 1 && isSliceFrom(c.Call.Args[0], run.Params[1], 1)
 			if okKey && okArg {
 				r.Ok("R-CLI-REG", key, p.Pos(c.Pos()), "looks up args[0] and calls the entry with args[1:]")
@@ -261,7 +293,7 @@ func ruleCLIReg(p *Prog, r *Report) {
 			}
 		}
 	}
-	r.Floor("R-CLI-REG", 43)
+	r.Floor("R-CLI-REG", 42) // 21 entries + 20 ecosystems + at least one dispatch site (two tables may share one)
 }
 
 // isElemLoad: v is args[i] for the given slice parameter.
@@ -1110,4 +1142,25 @@ func ruleCLISeq(p *Prog, r *Report) {
 func init() {
 	register("C15", "", ruleCLISeq)
 	register("C19", "", ruleCLISeq)
+}
+
+// freshMapResult: g returns (only) a map it has built itself by a literal
+func freshMapResult(g *ssa.Function) bool {
+	if g.Blocks == nil || g.Signature.Results().Len() != 1 {
+		return false
+	}
+	if _, ok := g.Signature.Results().At(0).Type().Underlying().(*types.Map); !ok {
+		return false
+	}
+	n := 0
+	for _, b := range g.Blocks {
+		if ret, ok := b.Instrs[len(b.Instrs)-1].(*ssa.Return); ok {
+			mk, ok := ret.Results[0].(*ssa.MakeMap)
+			if !ok || mk.Parent() != g {
+				return false
+			}
+			n++
+		}
+	}
+	return n > 0
 }
